@@ -8,7 +8,7 @@ from sim.util import derive_rng, pick, wpick
 
 LEVEL = 'exploration'
 BUDGET = {
-    'quick': dict(runs=170, wall=420, timeout=300, det=4, minimise=40),
+    'quick': dict(runs=170, wall=420, timeout=600, det=4, minimise=40),
     'thorough': dict(runs=2600, wall=3000, timeout=600, det=16, minimise=200),
 }
 RULE = ('Each run = one seeded (statistics interval s, preconditioner interval '
